@@ -3,7 +3,8 @@ module verif/checker
 go 1.23
 
 require (
-	golang.org/x/text v0.16.0
+	golang.org/x/net v0.34.0
+	golang.org/x/text v0.21.0
 	golang.org/x/tools v0.29.0
 )
 
